@@ -11,3 +11,108 @@ impl ConnIdMapper {
         self.wf() && self.left.len() == num_left && self.right.len() == num_right
     }
 }
+
+/// the mapping-file format (C06/C13): the i-th item (1-origin) names the OLD id that receives new id i;
+/// valid iff every id 1..=n is named exactly once (0 is reserved, nothing is > n, no duplicate)
+pub open spec fn lists_each_once(m: Seq<u16>) -> bool {
+    &&& forall|i: int| 0 <= i < m.len() ==> 1 <= #[trigger] m[i] as int <= m.len()
+    &&& forall|i: int, j: int| 0 <= i < j < m.len() ==> m[i] != m[j]
+}
+impl ConnIdMapper {
+    pub open spec fn maps(&self, lmap: Seq<u16>, rmap: Seq<u16>) -> bool {
+        &&& forall|i: int| 0 <= i < lmap.len() ==> self.left[#[trigger] lmap[i] as int] as int == i + 1
+        &&& forall|i: int| 0 <= i < rmap.len() ==> self.right[#[trigger] rmap[i] as int] as int == i + 1
+    }
+}
+
+// ---- pigeonhole facts needed by ConnIdMapper::parse ----
+pub open spec fn inj_in(s: Seq<int>, m: int) -> bool {
+    &&& forall|i: int| 0 <= i < s.len() ==> 1 <= #[trigger] s[i] <= m
+    &&& forall|i: int, j: int| 0 <= i < j < s.len() ==> s[i] != s[j]
+}
+
+/// swap-remove position p: the last element moves into slot p
+pub open spec fn swap_remove(s: Seq<int>, p: int) -> Seq<int> {
+    Seq::new((s.len() - 1) as nat, |i: int| if i == p { s[s.len() - 1] } else { s[i] })
+}
+
+pub proof fn lemma_swap_remove_inj(s: Seq<int>, p: int, m: int)
+    requires inj_in(s, m), 0 <= p < s.len(), s[p] == m,
+    ensures inj_in(swap_remove(s, p), m - 1),
+{
+    let s2 = swap_remove(s, p);
+    assert forall|i: int| 0 <= i < s2.len() implies 1 <= #[trigger] s2[i] <= m - 1 by {
+        if i == p { assert(s2[i] == s[s.len() - 1]); } else { assert(s2[i] == s[i]); }
+    }
+    assert forall|i: int, j: int| 0 <= i < j < s2.len() implies s2[i] != s2[j] by {}
+}
+
+/// at most m distinct values fit into 1..=m
+pub proof fn lemma_inj_count(s: Seq<int>, m: int)
+    requires inj_in(s, m), m >= 0,
+    ensures s.len() <= m,
+    decreases m
+{
+    if s.len() > 0 {
+        if m == 0 { assert(1 <= s[0] <= 0); }
+        else if exists|p: int| 0 <= p < s.len() && s[p] == m {
+            let p = choose|p: int| 0 <= p < s.len() && s[p] == m;
+            lemma_swap_remove_inj(s, p, m);
+            lemma_inj_count(swap_remove(s, p), m - 1);
+        } else {
+            assert(inj_in(s, m - 1));
+            lemma_inj_count(s, m - 1);
+        }
+    }
+}
+
+pub open spec fn covered(s: Seq<int>, t: int) -> bool { exists|i: int| 0 <= i < s.len() && #[trigger] s[i] == t }
+
+/// n distinct values within 1..=n cover 1..=n
+pub proof fn lemma_pigeon(s: Seq<int>, n: int)
+    requires s.len() == n, inj_in(s, n),
+    ensures forall|t: int| 1 <= t <= n ==> #[trigger] covered(s, t),
+    decreases n
+{
+    if n > 0 {
+        if exists|p: int| 0 <= p < n && s[p] == n {
+            let p = choose|p: int| 0 <= p < n && s[p] == n;
+            let s2 = swap_remove(s, p);
+            lemma_swap_remove_inj(s, p, n);
+            lemma_pigeon(s2, n - 1);
+            assert forall|t: int| 1 <= t <= n implies #[trigger] covered(s, t) by {
+                if t == n { assert(s[p] == t); } else {
+                    assert(covered(s2, t));
+                    let i = choose|i: int| 0 <= i < s2.len() && #[trigger] s2[i] == t;
+                    if i == p { assert(s[n - 1] == t); } else { assert(s[i] == t); }
+                }
+            }
+        } else {
+            assert(inj_in(s, n - 1));
+            lemma_inj_count(s, n - 1);
+            assert(false);
+        }
+    }
+}
+
+pub open spec fn as_ints(m: Seq<u16>) -> Seq<int> { Seq::new(m.len(), |i: int| m[i] as int) }
+
+pub proof fn lemma_lists_each_once_facts(m: Seq<u16>)
+    requires lists_each_once(m),
+    ensures m.len() <= 0xffff,
+        forall|t: int| 1 <= t <= m.len() ==> #[trigger] covered(as_ints(m), t),
+{
+    let s = as_ints(m);
+    assert(inj_in(s, 0xffff)) by {
+        assert forall|i: int| 0 <= i < s.len() implies 1 <= #[trigger] s[i] <= 0xffff by { assert(s[i] == m[i] as int); }
+        assert forall|i: int, j: int| 0 <= i < j < s.len() implies s[i] != s[j] by { assert(s[i] == m[i] as int); assert(s[j] == m[j] as int); }
+    }
+    lemma_inj_count(s, 0xffff);
+    assert(inj_in(s, m.len() as int)) by {
+        assert forall|i: int| 0 <= i < s.len() implies 1 <= #[trigger] s[i] <= m.len() by { assert(s[i] == m[i] as int); }
+    }
+    lemma_pigeon(s, m.len() as int);
+}
+
+/// some position 1 <= j < upto of `s` holds t
+pub open spec fn seen(s: Seq<u16>, upto: int, t: int) -> bool { exists|j: int| 1 <= j < upto && #[trigger] s[j] as int == t }
